@@ -13,8 +13,27 @@ import runs  # noqa: E402
 # time budget of the tier -- a configuration whose exploration hits the path budget is reported as inconclusive
 K_TABLE = {
     "default": (2, 3),
-    "2018_JCP_149_064113/coulomb_atoms/power_bounded.ini": (3, 4),
-    "2018_JCP_149_064113/coulomb_atoms/power_bounded_dump.ini": (3, 4),
+    "2018_JCP_149_064113/coulomb_atoms/power_bounded.ini": (4, 5),
+    "2018_JCP_149_064113/coulomb_atoms/power_bounded_dump.ini": (4, 5),
+    "2018_JCP_149_064113/dipoles/atom_factors.ini": (3, 3),
+    "hard_disk_dipoles/hard_disk_dipoles.ini": (3, 4),
+    "hard_disk_dipoles/single_hard_disk_dipole.ini": (4, 5),
+    "2018_JCP_149_064113/water/single_molecule.ini": (2, 3),
+    # configurations with composite objects in a cell system: every unit's cell and every pending event fork the
+    # exploration; K = 2 needs more than 20 minutes on 16 cores
+    "2018_JCP_149_064113/dipoles/cell_bounded.ini": (1, 2),
+    "2018_JCP_149_064113/dipoles/cell_veto.ini": (1, 2),
+    "2018_JCP_149_064113/water/coulomb_cell_veto_lj_cell_veto.ini": (1, 1),
+    "2018_JCP_149_064113/water/coulomb_cell_veto_lj_inverted.ini": (1, 2),
+    "2018_JCP_149_064113/water/coulomb_power_bounded_lj_cell_bounded.ini": (1, 2),
+    "hard_disk_dipoles/hard_disk_dipoles_cells.ini": (1, 2),
+    "2018_JCP_149_064113/dipoles/dipole_factors_inside_first.ini": (2, 2),
+    "2018_JCP_149_064113/dipoles/dipole_factors_outside_first.ini": (2, 2),
+    "2018_JCP_149_064113/dipoles/dipole_factors_ratio.ini": (2, 2),
+    "2018_JCP_149_064113/dipoles/dipole_motion.ini": (2, 2),
+    "2018_JCP_149_064113/coulomb_atoms/cell_veto.ini": (2, 2),
+    "2018_JCP_149_064113/coulomb_atoms/cell_bounded.ini": (2, 2),
+    "2018_JCP_149_064113/water/coulomb_power_bounded_lj_inverted.ini": (2, 2),
 }
 TITLES = {"C07": "particles move continuously; events only hand velocity over",
           "C08": "a committed event was computed from the current trajectory",
@@ -23,15 +42,40 @@ TITLES = {"C07": "particles move continuously; events only hand velocity over",
 
 
 def replay_run(model, q):
-    return {"reproduced": False,
-            "what": "run-level counterexample in %s after events %s: obligations %s (concrete replay needs a mock "
-                    "potential returning the model's values; not implemented)" % (q.info.get("config"),
-                                                                                 q.info.get("trace"),
-                                                                                 q.info.get("names", [])[:4])}
+    """Concrete re-execution of the real main loop at the model's values (exact rationals, stub answers and random
+    draws from the model, the winner of every scheduler query as on the failing path)."""
+    info = q.info
+    stats = {"commits": 0, "handlers": set()}
+    scratch = os.path.join(SCRATCH[0], "replay%d" % (abs(hash(q.name)) % 10 ** 6))
+    run = runs.make_config_run(info["config"], info["K"], scratch, (info.get("prop"),), None, stats)
+    rep = symx.ConcreteReplay(model, info.get("choices", []))
+    res = rep.replay(run)
+    names = set(info.get("names", []))
+    failed = [n for n in res["failed"] if n in names or not names]
+    what = "%s after events %s" % (info["config"], info.get("trace", "")[:200])
+    if info.get("exception") and res["exception"] is not None:
+        return {"reproduced": True, "what": "%s: concrete re-execution raises %r" % (what, res["exception"]),
+                "data": {"info": {k: v for k, v in info.items() if k != "replay"},
+                         "model": {k: str(v) for k, v in model.items()}}}
+    if res["broken_axioms"]:
+        return {"reproduced": False, "what": "%s: model violates a harness assumption on re-execution: %s"
+                                             % (what, res["broken_axioms"][:2])}
+    if failed:
+        return {"reproduced": True,
+                "what": "%s: %s fails in the concrete re-execution of the real main loop at the model's values"
+                        % (what, failed[:3]),
+                "data": {"info": {k: v for k, v in info.items() if k != "replay"},
+                         "model": {k: str(v) for k, v in model.items()}}}
+    return {"reproduced": False, "what": "%s: obligations hold in the concrete re-execution (undecided %s, exception %r)"
+                                         % (what, res["undecided"][:3], res["exception"])}
+
+
+SCRATCH = [None]
 
 
 def main(prop, extra_parts=None):
     chk = harness.Check(prop, TITLES[prop])
+    SCRATCH[0] = chk.scratch
     if chk.args.replay:
         print("replay of run-level counterexamples is not implemented")
         sys.exit(2)
@@ -66,19 +110,52 @@ def main(prop, extra_parts=None):
              "random molecule geometry -> arbitrary molecule satisfying the composite invariant")
     chk.register_replay("run", replay_run)
     want = (prop,)
-    tasks = []
-    for c in configs:
-        K = K_TABLE.get(c, K_TABLE["default"])[tier]
-        tasks.append((c, K, os.path.join(chk.scratch, "cfg%d" % len(tasks)), None, 6, want))
-    results = chk.explore_parallel(tasks, runs.explore_config)
-    sub = []
-    for r in results:
-        if "error" in r:
-            continue
-        for pre in r.get("prefixes", []):
-            t = r["task"]
-            sub.append((t[0], t[1], t[2] + "_s%d" % len(sub), pre, 0, want))
+    # phase 1: split every configuration into sub-trees (frontier of the decision tree); the depth is raised until a
+    # configuration has enough sub-trees to keep the workers busy (or the frontier itself becomes too wide)
+    sub, results = [], []
+    pending = {c: None for c in configs}
+    for depth in (3, 6, 9, 12):
+        tasks = []
+        for c in pending:
+            K = K_TABLE.get(c, K_TABLE["default"])[tier]
+            tasks.append((c, K, os.path.join(chk.scratch, "cfg%d_%d" % (len(tasks), depth)), None, depth, want))
+        saved_paths = chk.paths
+        saved_q = len(chk.queries)
+        res = chk.explore_parallel(tasks, runs.explore_config)
+        nxt = {}
+        for r in res:
+            if "error" in r:
+                results.append(r)
+                continue
+            c = r["task"][0]
+            if r.get("too_many_prefixes"):
+                continue                       # keep the split of the previous depth
+            pending[c] = r
+            if len(r["prefixes"]) < 24 and depth < 12 and r["prefixes"]:
+                nxt[c] = r
+        # queries of complete short paths are re-generated at the next depth: drop this round's for configurations
+        # that go on
+        if nxt:
+            keep = [q for q in chk.queries[saved_q:] if q.info.get("config") not in nxt]
+            del chk.queries[saved_q:]
+            chk.queries.extend(keep)
+        done = {c: r for c, r in pending.items() if r is not None and c not in nxt}
+        for c, r in done.items():
+            results.append(r)
+            for pre in r["prefixes"]:
+                t = r["task"]
+                sub.append((t[0], t[1], t[2] + "_s%d" % len(sub), pre, 0, want))
+        pending = {c: pending[c] for c in nxt}
+        if not pending:
+            break
+    for c, r in pending.items():
+        if r is not None:
+            results.append(r)
+            for pre in r["prefixes"]:
+                t = r["task"]
+                sub.append((t[0], t[1], t[2] + "_s%d" % len(sub), pre, 0, want))
     chk.log("phase 2: %d sub-trees" % len(sub))
+    sub.sort(key=lambda t: -len(t[3]))
     results2 = chk.explore_parallel(sub, runs.explore_config)
     per_cfg = {}
     for r in results + results2:
